@@ -181,6 +181,12 @@ pub(crate) fn lr_is_preserved(join_type: JoinType) -> (bool, bool) {
     }
 }
 
+/// Verification hook (add-only; compiled only with `--cfg datafusion_verif`).
+#[cfg(datafusion_verif)]
+pub fn verif_lr_is_preserved(join_type: JoinType) -> (bool, bool) {
+    lr_is_preserved(join_type)
+}
+
 /// See [`JoinType::on_lr_is_preserved`] for details.
 pub(crate) fn on_lr_is_preserved(join_type: JoinType) -> (bool, bool) {
     join_type.on_lr_is_preserved()
